@@ -26,6 +26,7 @@ Definition resting (q : Z) : bool := (q =? 32) || (q =? 34) || (q =? 36) || (q =
 Definition delta (q : Z) (e : tev) : option Z :=
   match e with
   | TEnd OOk => goto2 q 14 44 100
+  | TEnd (OErr KPanic) => None                 (* a crash is never an acceptable end *)
   | TEnd _ => if q =? 100 then None else Some 100
   | TTick => None
   | TRecv id _ =>
